@@ -19,10 +19,14 @@ SeqSet(s) == {s[i] : i \in DOMAIN s}
 \* how a wrong answer r to look-up (q, a) is wrong
 Kinds(S) == {x[1] : x \in S}
 Class(q, a, r) ==
-    LET x == Answer(q, a) IN
-    IF r.k = "exc" THEN <<"raises", r.s>>
-    ELSE IF q = "git_sha" /\ r.k = "set" /\ x.k = "set" /\ SeqSet(r.l) # {} /\ SeqSet(r.l) \subseteq x.e
-         THEN <<"keeps-some-of-shared-sha", IF Kinds(x.e) = {"blob"} THEN "blob" ELSE IF Kinds(x.e) = {"tree"} THEN "tree" ELSE "mixed">>
+    LET x == Answer(q, a)
+        y == AnswerWithLimbo(q, a) IN
+    IF r.k = "exc"
+    THEN IF r.s = "KeyError" /\ x.k = "one" /\ q \in {"blob_id", "tree_id"}
+            /\ Cardinality({o \in VisO \cup lobjs : o.sha = x.s /\ o.t = (IF q = "blob_id" THEN "blob" ELSE "tree")}) > 1
+         THEN <<"raises-on-shared-sha", r.s>> ELSE <<"raises", r.s>>
+    ELSE IF q = "git_sha" /\ r.k = "set" /\ y.k = "set" /\ SeqSet(r.l) # {} /\ SeqSet(r.l) \subseteq y.e
+         THEN <<"keeps-some-of-shared-sha", IF Kinds(y.e) = {"blob"} THEN "blob" ELSE IF Kinds(y.e) = {"tree"} THEN "tree" ELSE "mixed">>
     ELSE IF q = "missing" /\ r.k = "set" /\ wg /\ SeqSet(r.l) = Lookup(commits, objs, q, a).e
          THEN <<"ignores-open-write-group", "-">>
     ELSE IF x.k = "exc" THEN <<"answers-unknown-key", r.k>>
@@ -39,7 +43,8 @@ Consume ==
          [] e.k = "reopen" -> Reopen
          [] e.k = "repack" -> Repack
          [] e.k = "q"      -> /\ UNCHANGED vars
-                              /\ Right(e.q, e.a, e.r) \/ PrintT(<<"BAD", tid, l, e.q, Class(e.q, e.a, e.r)[1], Class(e.q, e.a, e.r)[2]>>)
+                              /\ IF Right(e.q, e.a, e.r) THEN TRUE
+                                 ELSE PrintT(<<"BAD", tid, l, e.q, Class(e.q, e.a, e.r)[1], Class(e.q, e.a, e.r)[2]>>)
     /\ l' = l + 1 /\ tid' = tid
 Finish ==
     /\ l = Len(Evs) + 1
